@@ -39,6 +39,8 @@ type Scenario struct {
 	UptimeMin int           `json:"uptime_min,omitempty"` // gated only: while the attempts are held, the collector's periodic clean-up pass runs as it would after this many minutes of uptime
 	Abort     bool          `json:"abort,omitempty"`      // the client closes its socket after the first body byte
 	BasePaths []string      `json:"base_paths,omitempty"` // per endpoint: what the configured url carries after host:port ("" | "/" | "/api/": the documented trailing-slash forms)
+	Path      string        `json:"path,omitempty"`       // proxy route: the path behind /olla/proxy ("" = /v1/chat/completions)
+	Pad       int           `json:"pad,omitempty"`        // proxy route: this many extra bytes in the request body
 }
 
 type ReqObs struct {
@@ -76,7 +78,10 @@ type Obs struct {
 	Statuses map[string]string `json:"statuses"`
 	StartErr string            `json:"start_err,omitempty"`
 	Settled  bool              `json:"settled"` // backends closed all connections before the final read
-	Ms       int64             `json:"ms"`
+	// NotJudged (histories): the step could not be observed reliably (something did not settle within a generous
+	// deadline on a loaded machine); it is reported, not judged, and the history ends here
+	NotJudged string `json:"not_judged,omitempty"`
+	Ms        int64  `json:"ms"`
 }
 
 func marker(cid int) string { return fmt.Sprintf("#cid-%d#", cid) }
@@ -89,7 +94,14 @@ func reqBytes(sc *Scenario, addr string, cid int) []byte {
 	case "anthropic-stream":
 		return stack.Request("POST", "/olla/anthropic/v1/messages", addr, hdr, []byte(`{"model":"m1","max_tokens":16,"stream":true,"messages":[{"role":"user","content":"`+marker(cid)+`"}]}`), false)
 	default:
-		return stack.Request("POST", "/olla/proxy/v1/chat/completions", addr, hdr, []byte(`{"messages":[{"role":"user","content":"`+marker(cid)+`"}]}`), false)
+		path, pad := "/v1/chat/completions", ""
+		if sc.Path != "" {
+			path = sc.Path
+		}
+		if sc.Pad > 0 {
+			pad = `,"pad":"` + strings.Repeat("p", sc.Pad) + `"`
+		}
+		return stack.Request("POST", "/olla/proxy"+path, addr, hdr, []byte(`{"messages":[{"role":"user","content":"`+marker(cid)+`"}]`+pad+`}`), false)
 	}
 }
 
